@@ -49,6 +49,7 @@ func init() {
 			{"POS-FUSED", 15, rulePosFused},
 			{"FRM-PAIR", 6, ruleFrmPair},
 			{"BT-ORDER", 2, ruleBtOrder},
+			{"POS-NODE", 1, rulePosNode},
 		},
 	})
 }
@@ -480,6 +481,7 @@ func rulePosFused(c *Ctx, r *R) {
 		r.undecided("doOptimize", "-", err.Error())
 		return
 	}
+	hm, _ := newHndMachine(c)
 	for _, rw := range p.Rewrites {
 		key := rw.Key()
 		pos := litField(rw.Lit, "Pos")
@@ -487,6 +489,28 @@ func rulePosFused(c *Ctx, r *R) {
 		if pos == nil {
 			r.fail(key, c.Pos(rw.Clause), "the fused instruction is built without a Pos: run-time errors inside it carry no source line")
 			continue
+		}
+		// a fused instruction has one position: a window with two components that can fail
+		// (their handlers call into value code) may be folded only when both are on the same line
+		if hm != nil {
+			failing := 0
+			for _, op := range rw.Window {
+				if ps, err := hm.single(op); err == nil {
+					can := false
+					for _, hp := range ps {
+						if len(hp.Calls) > 0 || hp.Done == "panic" {
+							can = true
+						}
+					}
+					if can {
+						failing++
+					}
+				}
+			}
+			if failing >= 2 {
+				r.check(len(rw.PosSide) > 0, key+" lines", c.Pos(rw.Clause), "two failing-capable components are folded only under a same-position condition",
+					fmt.Sprintf("the window %v folds %d components that can each fail at run time into one instruction with one position, without requiring them to be on the same line: for `t.` / `F(1)` split over two lines a nil t is reported at the selector's line with the optimiser off and at the call's line with it on", rw.Window, failing))
+			}
 		}
 		r.check(pos.String() == last, key, c.Pos(rw.Clause), "Pos of the window's last component",
 			fmt.Sprintf("the fused instruction takes its position from %s, not from the window's last component %s: the first component is a load that cannot fail, so with a construct spread over several lines (a multi-line call) the reported line and the backtrace's call line differ with the optimiser on and off", pos, last))
@@ -1232,5 +1256,64 @@ func ruleFuncIsolated(c *Ctx, r *R) {
 		if !found {
 			r.undecided(fn+" stack", c.Pos(fd), "no VM literal with a stack field")
 		}
+	}
+}
+
+// POS-NODE: the position of a call is the position of its "(" — the token the Led handler
+// is invoked for — as in Go's stack traces, not the position of whatever token follows it
+// (the first argument, possibly on a later line).  The call node's position is what the
+// CALL instruction and the backtrace entry carry.
+func rulePosNode(c *Ctx, r *R) {
+	rows, err := c.symbolTable()
+	if err != nil {
+		r.undecided("symbols", "-", err.Error())
+		return
+	}
+	n := 0
+	seen := map[*ast.FuncDecl]bool{}
+	for _, row := range rows {
+		fn, _ := row.Led.(*types.Func)
+		if fn == nil {
+			continue
+		}
+		fd := c.DeclOf(fn)
+		if fd == nil || fd.Body == nil || seen[fd] || len(fd.Type.Params.List) < 2 {
+			continue
+		}
+		seen[fd] = true
+		// the handler's own token parameter (second parameter: t *token)
+		var tokParam types.Object
+		i := 0
+		for _, f := range fd.Type.Params.List {
+			for _, nm := range f.Names {
+				if i == 1 {
+					tokParam = c.Info.Defs[nm]
+				}
+				i++
+			}
+		}
+		for _, h := range c.withHelpers(fd) {
+			ast.Inspect(h.Body, func(nd ast.Node) bool {
+				call, ok := nd.(*ast.CallExpr)
+				if !ok || c.CalleeName(call) != "symAtPos" || len(call.Args) != 2 {
+					return true
+				}
+				if kind, ok := c.ConstString(call.Args[1]); !ok || kind != "call" {
+					return true
+				}
+				n++
+				good := false
+				if sel, ok := unparen(call.Args[0]).(*ast.SelectorExpr); ok && sel.Sel.Name == "Pos" {
+					if id, ok := unparen(sel.X).(*ast.Ident); ok && h == fd && c.Obj(id) == tokParam {
+						good = true
+					}
+				}
+				r.check(good, "call position "+h.Name.Name, c.Pos(call), "the call node is positioned at its \"(\" token", h.Name.Name+" positions the call node at "+c.Src(call.Args[0])+" — the token after the \"(\" — so a call whose first argument is on the next line (gofmt's layout for long calls) is reported, in the error and in every backtrace entry, at the line of its first argument instead of the line of the call")
+				return true
+			})
+		}
+	}
+	if n == 0 {
+		r.undecided("call position", "-", "no Led handler creates a call node with symAtPos")
 	}
 }
